@@ -9,25 +9,25 @@ CLAIMS = {
    text='Bounded symbolic verification (binding audit): every acyclic path of decode_compact/flattened/general, expand_payload, decode_signature, DecodedHeaders, '
         'JwsValidationItem::verify and Jwk::check_alg is executed from the freshly dumped MIR with callee results unconstrained; z3 decides per requirement whether a '
         'feasible accepting path exists that does not bind signing input / signature / claims / alg / key to the bytes received. Candidates are replayed natively.'
-        " Also: the bundled ECDSA / EdDSA verifiers dispatch on input.alg only; JwsValidationItem::nonce/kid/alg/protected_header are the protected header's values; the general-serialization iterator is audited end-to-end with its helpers inlined. jwu::decode_b64 / encode_b64 (and their JSON forms) are exactly the strict Base64Url engine on the whole input; the scheme verifiers hand the whole decoded signature and the item's signing input to the primitive and build EC keys from the uncompressed point of both JWK coordinates; create_message is header, '.', payload byte for byte; C03's verify_jws obligation re-used.",
+        " Also: the bundled ECDSA / EdDSA verifiers dispatch on input.alg only; JwsValidationItem::nonce/kid/alg/protected_header are the protected header's values; the general-serialization iterator is audited end-to-end with its helpers inlined. jwu::decode_b64 / encode_b64 (and their JSON forms) are exactly the strict Base64Url engine on the whole input; the scheme verifiers hand the whole decoded signature and the item's signing input to the primitive and build EC keys from the uncompressed point of both JWK coordinates; create_message is header, '.', payload byte for byte; C03's verify_jws obligation re-used. Round 6: JwsAlgorithm::name() returns the registered name of each variant (per-variant kernel against the RFC table).",
    note='Trusted: rustc MIR dump, mir2smt and its core-function models, z3. Outside: serde parsing, the cryptography inside the verifiers, the multibase Base64Url engine itself.',
    technique=TECH_M, ref='DESIGN.md section 2 C01'),
  'C02': dict(
    text='Binding audit of validate / verify_signature_with_verifier / parse_jwk / verify_decoded_signature plus semantic evaluation of the validation-unit iterator '
         'chain of validate_decoded_credential over all unit outcomes, fail-fast modes and option presences (222 paths): accepted iff every unit passed, errors identify failures.'
-        ' Unit bodies audited: Credential::check_structure (base context first, base type, a subject), check_status (skip rules), check_revocation_bitmap_status, check_subject_holder_relationship (subject id present and equal); C07 numeric-date obligation re-used.',
+        ' Unit bodies audited: Credential::check_structure (base context first, base type, a subject), check_status (skip rules), check_revocation_bitmap_status, check_subject_holder_relationship (subject id present and equal); C07 numeric-date obligation re-used. Round 6: extract_issuer / extract_issuer_from_jwt parse the whole issuer URL as a DID; C04\'s DIDUrlQuery did_str / fragment obligations re-used.',
    note='Trusted as C01. Includes the credential check_consistency audit (every member repeated inside vc agrees with its registered claim). Outside: JSON, crypto, resolve_method (C04, re-used for the scoped lookup).',
    technique=TECH_M, ref='DESIGN.md section 2 C02'),
  'C03': dict(
    text='Binding audit of JwtPresentationValidator::validate (all 100+ paths, closures inlined) and CoreDocument::verify_jws: accepted only with verify_jws on the holder '
-        'document, iss == document id, inclusive exp/issuance bounds against the right options, consistency conversion, returned values are the signed ones.',
+        'document, iss == document id, inclusive exp/issuance bounds against the right options, consistency conversion, returned values are the signed ones. Round 6: C04\'s DIDUrlQuery did_str / fragment obligations re-used (kid with a foreign or malformed DID part never matches by fragment).',
    note='Trusted as C01. Includes the vp.id/vp.holder consistency audit of PresentationJwtClaims::check_consistency. Outside: JSON, crypto, resolve_method (C04).',
    technique=TECH_M, ref='DESIGN.md section 2 C03'),
  'C04': dict(
    text='M: one inductive step of every checked mutator and resolver of CoreDocument from an arbitrary document (sets opaque): which of the seven sets is touched '
         'for which scope/relationship under which guard, refused operations perform no mutation, scoped/unscoped resolution order, query matching; '
         'constructor gate check_id_constraints with its loops unrolled twice (every id read is recorded in / checked against the identifier map); insert_method asks every relationship set by query.'
-        ' Also remove_method_and_scope (loop unrolled 6x) and the DIDUrlQuery conversions from typed values (the query carries the whole text).',
+        ' Also remove_method_and_scope (loop unrolled 6x) and the DIDUrlQuery conversions from typed values (the query carries the whole text). Round 6: DIDUrlQuery::did_str / fragment (the scheme prefix alone decides whether a query has a DID part); C19\'s OrderedSet::try_from<Vec>, OneOrSet::deserialize and derived-Serialize obligations re-used (accepted documents have no duplicate inside a collection; one-or-set members are written in the variant they were read in).',
    note='Trusted as C01. Outside: JSON round trip, OrderedSet operations (C19), whole-document invariant beyond 2 entries per loop.',
    technique=TECH_M, ref='DESIGN.md section 2 C04'),
  'C05': dict(
@@ -40,7 +40,7 @@ CLAIMS = {
    text='M: the legacy-format detector literal (read from the MIR) decided by z3 against the Base64Url text of every zlib default-compression stream (symbolic first deflate '
         'byte) and of its legacy double encoding; binding audit of the encode/decode pipeline, endpoint prefix handling, the document read-modify-write, the per-index '
         'revoke/unrevoke closures (lists <= 2) and revoked-iff-member in the status check.'
-        " Also: compress_zlib uses the default compression level on every path (the detector's premise); the revoke/unrevoke closures iterate the listed indices and touch the bitmap only per index; deserialize_slice / serialize_vec are exactly roaring's reader / writer on the whole data; decompress_zlib is the streaming decoder run to the end; the bitmap service is looked up by the whole status id; C02's status-unit obligation is re-used; try_index_to_u32 is exactly u32::from_str and RevocationBitmapStatus::try_from scans every query pair.",
+        " Also: compress_zlib uses the default compression level on every path (the detector's premise); the revoke/unrevoke closures iterate the listed indices and touch the bitmap only per index; deserialize_slice / serialize_vec are exactly roaring's reader / writer on the whole data; decompress_zlib is the streaming decoder run to the end; the bitmap service is looked up by the whole status id; C02's status-unit obligation is re-used; try_index_to_u32 is exactly u32::from_str and RevocationBitmapStatus::try_from scans every query pair. Round 6: IotaDocument::revoke_credentials / unrevoke_credentials forward both arguments to the core document on every path and return its outcome.",
    note='Trusted as C01. Outside: roaring set semantics and serialisation, zlib, base64 codec; large sets are exercised only by the native confirmation battery.',
    technique='SMT query over the symbolic deflate byte (z3, bit-vector base64 model) + ' + TECH_M, ref='DESIGN.md section 2 C06'),
  'C07': dict(
@@ -54,7 +54,7 @@ CLAIMS = {
    text='M: mirror image of C01 on the producing side - the three encoders sign create_message(protected segment placed in the token, payload placed in the token), '
         'emit exactly those strings plus base64url(signature), prepare the payload by b64 of the protected header, validate unencoded compact payloads; '
         'RFC 7797 5.2 character-set kernels over every char.'
-        ' K: CharSet::validate on every 1- and 2-byte string for both sets. Re-used obligations: C11 general-encoder, C01 item accessors and codec binding, C03 verify_jws, C04 resolve_method. M (fault-schedule mode): the storage-backed JwkDocumentExt::create_jws - on every successful path of the async body the protected header is exactly what the options ask for, the key id is looked up for the resolved method, the signer gets that key id and the encoder signing input, the token is the encoder output; header Serialize skips members only when absent.',
+        ' K: CharSet::validate on every 1- and 2-byte string for both sets. Re-used obligations: C11 general-encoder, C01 item accessors and codec binding, C03 verify_jws, C04 resolve_method. M (fault-schedule mode): the storage-backed JwkDocumentExt::create_jws - on every successful path of the async body the protected header is exactly what the options ask for, the key id is looked up for the resolved method, the signer gets that key id and the encoder signing input, the token is the encoder output; header Serialize skips members only when absent. Round 6: JwsVerificationOptions builder methods store Some(argument) in their own field and pass the others on.',
    note='Trusted as C01. Outside: serde_json text of flattened/general envelopes (a JSON-escaping defect observed natively is described in DESIGN.md), '
         'create_credential_jwt / create_presentation_jwt (claim serialisation in front of create_jws), real signatures.',
    technique='Kani/CBMC bounded model checking of the compiled functions on short symbolic inputs + ' + TECH_M, ref='DESIGN.md section 2 C08'),
@@ -63,7 +63,7 @@ CLAIMS = {
         'initial state with every storage-call result unconstrained - the fault schedule is a set of symbolic variables and every subset of failing calls is a path. '
         'Success only with method + key + key id in place; every plain error undoes key generation / restores the document and key id; UndoOperationFailed only in '
         'the documented patterns; rollback completeness against what remove_method_and_scope destroys.'
-        ' Failures of the document insertion / method construction are in scope; an ignored clean-up outcome is a violation; C04 insert_method guard and remove_method_and_scope re-used.',
+        ' Failures of the document insertion / method construction are in scope; an ignored clean-up outcome is a violation; C04 insert_method guard and remove_method_and_scope re-used. Round 6: C04\'s resolve_method / DIDUrlQuery obligations re-used (a generated method resolves in every scope).',
    note='Trusted as C01; awaited futures complete on first poll (no interleaving inside join!). Outside: real stores (C15), non-storage failures, insert/remove_method themselves (C04).',
    technique='MIR-to-SMT symbolic execution of the compiled async state machines (fault schedule as symbolic callee outcomes, z3 path feasibility)', ref='DESIGN.md section 2 C09'),
  'C10': dict(
@@ -75,14 +75,14 @@ CLAIMS = {
  'C11': dict(
    text='M: validate_jws_headers is the conjunction of its three validators on (protected, unprotected); is_disjoint formulas over all presence patterns of all header '
         'fields; validate_b64; encoder gates; recipient b64 agreement. K: validate_crit decision table per concrete crit list with symbolic header presence bits.'
-        " Re-used: C01's verify obligation (alg only from the protected header). is_custom_disjoint compares custom parameters by name only (loop unrolled twice).",
+        " Re-used: C01's verify obligation (alg only from the protected header). is_custom_disjoint compares custom parameters by name only (loop unrolled twice). Round 6: the JOSE header types are read by the derived deserialiser with no per-field helper.",
    note='Trusted as C01 plus Kani/CBMC. Outside: header parameter values, custom-parameter maps.',
    technique=TECH_M + '; Kani/CBMC for validate_crit', ref='DESIGN.md section 2 C11'),
  'C12': dict(
    text='Bounded symbolic verification: StatusList2021::{set,get,len} translated from the freshly dumped MIR into SMT (arrays + bit-vectors) and '
         'decided by z3 (cvc5 cross-check) for a list of ANY length <= 2^60 bytes, every usize index and both values: panic freedom, Ok iff in range, '
         'read-after-write equals the bit-vector model for every other index; one-way revocation through MutStatusList and the credential. Counterexamples are replayed natively.'
-        ' Also: try_from_encoded_str = base64 -> gunzip -> read_to_end uncapped; check_status_with_status_list_2021 compares list id and purpose before reading the entry; StatusList2021Credential::update applies the caller function once and always stores the re-encoded list; into_inner replaces the subject as a whole.',
+        ' Also: try_from_encoded_str = base64 -> gunzip -> read_to_end uncapped; check_status_with_status_list_2021 compares list id and purpose before reading the entry; StatusList2021Credential::update applies the caller function once and always stores the re-encoded list; into_inner replaces the subject as a whole. Round 6: StatusList2021::new refuses exactly below the minimum size and otherwise allocates exactly ceil(n/8) zero bytes for every n (128-bit identity); the status evaluation returns Ok without reading the list only for SkipAll or a credential without status.',
    note='Trusted: rustc MIR dump, the mir2smt translator and its models of the listed core functions, z3/cvc5. Outside: gzip+base64 encoding (uninterpreted codec pair), '
         'check_status_with_status_list_2021.',
    technique='MIR-to-SMT symbolic execution (path enumeration, z3 verdict per path); Kani/CBMC harnesses on the public API',
@@ -90,39 +90,39 @@ CLAIMS = {
  'C13': dict(
    text='K: range gate, unix round trip, order and checked arithmetic for all seconds in windows round both range ends and 0; M: every constructor (parse, serde, FromStr, '
         'checked_add/sub) routes through the range gate and none uses a panicking offset conversion.'
-        ' M kernel: Duration unit constructors = count x unit over all 2^32 counts; a missing validating serde conversion is a candidate confirmed natively; checked_add / checked_sub return None only when the date arithmetic or the range gate refused; Display / Debug / String::from / Serialize are to_rfc3339.',
+        ' M kernel: Duration unit constructors = count x unit over all 2^32 counts; a missing validating serde conversion is a candidate confirmed natively; checked_add / checked_sub return None only when the date arithmetic or the range gate refused; Display / Debug / String::from / Serialize are to_rfc3339. Round 6: also in the opaque and_then form, checked_add / checked_sub pass the sum through the seconds-truncating range gate.',
    note='Trusted as C01 plus Kani/CBMC. Outside: RFC 3339 text parser/formatter of the time crate, mid-range dates.',
    technique='Kani/CBMC over the compiled code in stated windows; ' + TECH_M, ref='DESIGN.md section 2 C13'),
  'C14': dict(
    text='M: StateMetadataDocument::unpack decided byte-precisely for inputs of every length (marker, version, encoding, 16-bit LE length, exact body slice, trailing bytes '
         'ignored, no panic); add_flags_to_message header bytes and 16-bit gate; rebasing closures rewrite only the placeholder / self id and are wired to the right fields.'
-        ' Also: DIDUrl / VerificationMethod / MethodRef / Service map and try_map and CoreDocumentData::try_map; the self-reference test compares whole identifiers; derived Serialize skips members only by is_none / is_empty; CoreDocument::try_map / map_unchecked forward the four functions in their roles; pack clears only the two ledger address fields; C04 gate obligations re-used.',
+        ' Also: DIDUrl / VerificationMethod / MethodRef / Service map and try_map and CoreDocumentData::try_map; the self-reference test compares whole identifiers; derived Serialize skips members only by is_none / is_empty; CoreDocument::try_map / map_unchecked forward the four functions in their roles; pack clears only the two ledger address fields; C04 gate obligations re-used. Round 6: IotaDocument::unpack_from_output produces the empty document only for empty metadata and returns every unpack error (candidate without native scenario = inconclusive: the replay crate is built without the ledger client).',
    note='Trusted as C01. Outside: JSON body.',
    technique='Kani/CBMC bounded model checking of the compiled functions on short symbolic inputs + ' + TECH_M, ref='DESIGN.md section 2 C14'),
  'C17': dict(
    text='M kernels: network-name character class == [a-z0-9] for every char and the 1..6 length gate; M audit: every constructor reaches try_from_core, which '
         'lower-cases, validates method == iota / 32-byte prefixed-hex tag component / network component and removes exactly the default network; component accessors recompose the method id.'
-        " K: validate_network_name on every ASCII string of length 0, 6, 7 (thorough: 1, 3). Infallible constructors return what parse accepted; C10's CoreDID gate obligations re-used; eq / ord / hash of IotaDID and CoreDID are the derived structural impls; NetworkName::try_from stores what it validated; IotaDID deserialises only through TryFrom<CoreDID>.",
+        " K: validate_network_name on every ASCII string of length 0, 6, 7 (thorough: 1, 3). Infallible constructors return what parse accepted; C10's CoreDID gate obligations re-used; eq / ord / hash of IotaDID and CoreDID are the derived structural impls; NetworkName::try_from stores what it validated; IotaDID deserialises only through TryFrom<CoreDID>. Round 6: network_str / tag_str are the two halves of denormalized_components(method id) on every path; Ord / Hash agreement with equality in the native battery.",
    note='Trusted as C01. Outside: to_lowercase / prefix_hex internals, the generic parser (C10), equality <=> (network, tag bytes): normal form, default network omitted and derived comparison are decided, the implication is argued.',
    technique='Kani/CBMC bounded model checking of the compiled functions on short symbolic inputs + ' + TECH_M, ref='DESIGN.md section 2 C17'),
  'C18': dict(
    text='M kernels over all presence patterns: per-family to_public drops exactly the private members and keeps the public ones, is_public iff no private member, '
         'family dispatch, kty/params coherence in new/from_params/set_kty/set_params, idempotence of the projection on key_ops (closure evaluated symbolically twice), '
         'thumbprint template = RFC 7638/8037 required members in lexicographic order, VerificationMethod::from_builder rejects non-public JWKs.'
-        ' from_builder accepts a JWK only on is_public() == true; the json-proof-token conversion declares the family of the parameters it builds.',
+        ' from_builder accepts a JWK only on is_public() == true; the json-proof-token conversion declares the family of the parameters it builds. Round 6: C20\'s did:jwk expansion obligations re-used (the expanded method comes from VerificationMethod::try_from(DIDJwk) -> new_from_jwk, the guarded constructor).',
    note='Trusted as C01. Outside: serde untagged deserialisation, SHA-256, generated keys, member values.',
    technique='Kani/CBMC bounded model checking of the compiled functions on short symbolic inputs + ' + TECH_M, ref='DESIGN.md section 2 C18'),
  'C19': dict(
    text='K: OrderedSet<u8> append / prepend / remove as one inductive step from every duplicate-free state of the concrete length in the harness name (append, remove <= 3; prepend <= 2) with '
         'arbitrary arguments against a list model, TryFrom<Vec>/FromIterator on 3 arbitrary elements; M: OneOrSet::new_set / map / try_map and OneOrMany::from<Vec> normalisation, '
         'OneOrSet array deserialisation through the duplicate-rejecting constructor plus non-emptiness, OrderedSet derived Deserialize through TryFrom<Vec>, and OrderedSet::change '
-        '(replace/update) restricted to order-preserving vector operations (binding audit; its full list semantics is out of CBMC reach: 20-30 minute caps at length 1); replace / update are exactly one change call with a key predicate; TryFrom<Vec> inserts element-wise through append; OneOrSet::append leaves the collection untouched on a refused duplicate; OneOrMany::from_iter normalises through From<Vec>; OrderedSet::remove / prepend keep the order of the rest; OneOrMany::push decides by emptiness.',
+        '(replace/update) restricted to order-preserving vector operations (binding audit; its full list semantics is out of CBMC reach: 20-30 minute caps at length 1); replace / update are exactly one change call with a key predicate; TryFrom<Vec> inserts element-wise through append; OneOrSet::append leaves the collection untouched on a refused duplicate; OneOrMany::from_iter normalises through From<Vec>; OrderedSet::remove / prepend keep the order of the rest; OneOrMany::push decides by emptiness. Round 6: OneOrMany is read by the derived deserialiser without a per-variant helper; OneOrSet\'s Serialize is the derived one.',
    note='Trusted as C01 plus Kani/CBMC. Outside: sets longer than the harness length, replace/update list semantics beyond the binding audit and the native battery, serde text forms, OneOrMany::push.',
    technique='Kani/CBMC bounded model checking of one inductive step per operation + ' + TECH_M, ref='DESIGN.md section 2 C19'),
  'C16': dict(
    text='Binding audit of validate_key_binding_jwt (171 blocks, 100+ paths: typ, holder key in scope, signature, sd_hash, nonce, aud, iat window, no reachable panic), '
         'SD-JWT verify_signature (signature before disclosures, decoded claims feed the credential, issuer == kid DID) and validate_credential (same units as plain JWTs).'
-        " Re-used: C02's parse_jwk / verify_decoded_signature obligations. The sd_hash input is the disclosure list as presented (no reshaping adaptor); panic models (char boundaries, String offsets) are switched on for the two no-panic obligations.",
+        " Re-used: C02's parse_jwk / verify_decoded_signature obligations. The sd_hash input is the disclosure list as presented (no reshaping adaptor); panic models (char boundaries, String offsets) are switched on for the two no-panic obligations. Round 6: C02's unit bodies (check_status, check_revocation_bitmap_status, check_structure) and C07's credential consistency check re-used.",
    note='Trusted as C01. Outside: SdObjectDecoder::decode, hashing, JSON, crypto.',
    technique=TECH_M, ref='DESIGN.md section 2 C16'),
  'C20': dict(
